@@ -144,11 +144,12 @@ Silent(t) ==
      \/ /\ Ev.e \in {"acquire", "self_wait", "hung"}
         /\ \E c \in Colls : Hint(c) /\ CallArg(t, c)
         /\ UNCHANGED dev
-     \/ (EvalArgs(t) \/ ResumeLazy(t) \/ ArgError(t) \/ Yield(t) \/ Return(t)) /\ UNCHANGED dev
+     \/ (EvalArgs(t) \/ ResumeLazy(t) \/ ArgError(t) \/ Recurse(t) \/ Yield(t) \/ Return(t)) /\ UNCHANGED dev
      \/ (\E j \in 1..MaxDepth : Resume(t, j)) /\ UNCHANGED dev
      \/ /\ \E j \in 1..MaxDepth : j <= Len(frames[t]) /\ ~frames[t][j].hold /\ Abandon(t, j)
         /\ UNCHANGED dev
      \/ LeaveHolding(t) /\ dev' = dev \cup {"LeaveHolding"}
+     \/ ReenterHolding(t) /\ dev' = dev \cup {"ReenterHolding"}
      \/ YieldHolding(t) /\ dev' = dev \cup {"YieldHolding"}
      \/ LeakRaise(t) /\ dev' = dev \cup {"LeakRaise"}
   /\ UNCHANGED <<i, tr, bad, pend>>
